@@ -216,6 +216,24 @@ def run(case):
                 res.fail(tag + ':fit', 'step %d increased the sum of squared distances: %r -> %r' % (k, prev, cst))
                 break
             prev = cst
+        # the same loop on array.array series with an array.array average (1-D lists only): the caller's objects
+        # stay as they were and the averages are those of the ndarray run
+        if nd == 1 and case['container'] == 'list':
+            import array
+            data_a = [array.array('d', s) for s in S]
+            c_a = array.array('d', c)
+            got_a, exc = libcall(dtw_barycenter.dba_loop, data_a, c=c_a, max_it=case['max_it'], thr=0.001, mask=npmask,
+                                 keep_averages=True, use_c=use_c, **lkw)
+            if exc:
+                res.fail('%s[array]:%s' % (tag, exc), 'dba_loop on array.array series raised')
+                continue
+            if list(c_a) != list(c) or any(list(x) != list(s) for x, s in zip(data_a, S)):
+                res.fail(tag + '[array]:modified-input', 'dba_loop modified the array.array series / initial average')
+            avgs_a = got_a[1]
+            if len(avgs_a) != len(avgs) or any(
+                    not all(ref.close(x, y) for x, y in zip(_aslist(p, nd), _aslist(q, nd))) for p, q in zip(avgs_a, avgs)):
+                res.fail(tag + '[array]:differs', 'averages on array.array series %r, on ndarray series %r'
+                         % ([_aslist(p, nd) for p in avgs_a][:2], [_aslist(q, nd) for q in avgs][:2]))
     return res
 
 
